@@ -99,6 +99,17 @@ def make_scenarios(rng, tier):
             seqs = gen.family(rng, 4, L, alpha, sub=0.1, indel=0.0)
             scs.append(dict(id="w%d%s" % (L, kind[0]), kind=kind, seqs=seqs, names=gen.names(rng, 4, "wild"), type=5, gpo=-1.0, gpe=-1.0, tgpe=-1.0,
                             threads=2, allfmt=True))
+    # long sequences (200..1500 residues, on both sides of the 500-row switch) in mixed case, with the letters of every class:
+    # what comes out must be the input, letter for letter
+    for j, L in enumerate([260, 520, 1100] if tier == "quick" else [201, 260, 499, 500, 520, 777, 1100, 1500, 2200]):
+        kind = ["dna", "protein", "rna"][j % 3]
+        alpha = {"dna": gen.DNA + "N", "protein": gen.AA + "BZX", "rna": gen.RNA}[kind]
+        seqs = gen.family(rng, rng.randint(3, 5), L, alpha, sub=0.1, indel=0.02)
+        if kind == "protein":
+            seqs = [x + "LKEF" for x in seqs]
+        seqs = [gen.case_mask(rng, x, rng.choice([0.3, 0.5, 1.0])) for x in seqs]
+        scs.append(dict(id="long%d%s" % (L, kind[0]), kind=kind, seqs=seqs, names=gen.names(rng, len(seqs), "wild"), type=5, gpo=-1.0, gpe=-1.0, tgpe=-1.0,
+                        threads=rng.choice([1, 4]), allfmt=True))
     # groups of 64 and more sequences followed merge by merge (full arrays)
     for j, (n, L) in enumerate([(70, 40), (100, 30)] if tier == "quick" else [(66, 60), (70, 40), (100, 50), (130, 40), (200, 25), (64, 80)]):
         kind = ["protein", "dna"][j % 2]
